@@ -322,15 +322,21 @@ func judgeRest(s restSpec, e *vsched.Exec, o *restObs) vx.Verdict {
 // ---------- zRPC server interceptor, fx.DoWithTimeout, client interceptor ----------
 
 type callSpec struct {
-	Kind   string // zrpc-server | fx | zrpc-client
+	Kind   string // zrpc-server | fx | zrpc-client | zrpc-chain (the interceptor chain as the real client assembles it)
 	Work   string // ok | err | panic | stall
 	Parent string // none | earlier | later | cancel-during
 	Method string // zrpc-server: "" default timeout, "m" per-method timeout dt/2
 	CallT  int    // zrpc-client: per-call option in ms (-1 none)
 	DefT   int    // zrpc-client: default in ms
+	Mw     string // zrpc-chain: Middlewares.Timeout on | off
 }
 
+func (s callSpec) isClient() bool { return s.Kind == "zrpc-client" || s.Kind == "zrpc-chain" }
+
 func (s callSpec) name() string {
+	if s.Kind == "zrpc-chain" {
+		return fmt.Sprintf("%s-%s-parent:%s-call%d-def%d-mw:%s", s.Kind, s.Work, s.Parent, s.CallT, s.DefT, s.Mw)
+	}
 	return fmt.Sprintf("%s-%s-parent:%s-m%s-call%d-def%d", s.Kind, s.Work, s.Parent, orDash(s.Method), s.CallT, s.DefT)
 }
 
@@ -411,6 +417,18 @@ func callScenario(s callSpec) vx.Scenario {
 					_, err := work(ctx)
 					return err
 				}, opts...)
+			case "zrpc-chain":
+				// trace, duration, prometheus, breaker and (if switched on) timeout interceptors, chained as
+				// grpc.WithChainUnaryInterceptor does, around a probe invoker; the conn is never connected
+				ic := verifzrpc.ClientChain(time.Duration(s.DefT)*time.Millisecond, s.Mw != "off")
+				var opts []grpc.CallOption
+				if s.CallT >= 0 {
+					opts = append(opts, verifzrpc.WithCallTimeout(time.Duration(s.CallT)*time.Millisecond))
+				}
+				o.err = ic(parent, "/svc/m", "req", "reply", verifzrpc.IdleConn(), func(ctx context.Context, method string, req, reply any, cc *grpc.ClientConn, opts ...grpc.CallOption) error {
+					_, err := work(ctx)
+					return err
+				}, opts...)
 			}
 		}()
 		o.elapsedRet = vsched.Elapsed()
@@ -426,7 +444,7 @@ func callScenario(s callSpec) vx.Scenario {
 		if e.Outcome == "deadlock" && o != nil && !o.returned {
 			return vx.Verdict{Class: "call-never-returns{" + e.BlockedKey() + "}", Msg: "the wrapper never returned: " + strings.Join(e.Blocked(), " "), Sig: "deadlock"}
 		}
-		if e.Outcome == "deadlock" && o != nil && o.returned && s.Work == "stall" && s.Kind == "zrpc-client" {
+		if e.Outcome == "deadlock" && o != nil && o.returned && s.Work == "stall" && s.isClient() {
 			return vx.Verdict{Sig: "client-waits"} // the client interceptor does not promise to return early
 		}
 		if g := vx.Guard(e); g != nil {
@@ -437,15 +455,19 @@ func callScenario(s callSpec) vx.Scenario {
 		if s.Kind == "zrpc-server" && s.Method == "m" {
 			t = dt / 2
 		}
-		if s.Kind == "zrpc-client" {
+		if s.isClient() {
+			// effective timeout: the per-call option if given, else the client-wide one; <= 0 means none
 			t = time.Duration(s.DefT) * time.Millisecond
 			if s.CallT >= 0 {
 				t = time.Duration(s.CallT) * time.Millisecond
 			}
+			if s.Kind == "zrpc-chain" && s.Mw == "off" {
+				t = 0 // timeout middleware switched off: the chain adds no deadline at all
+			}
 		}
 		var expDl time.Time
 		hasDl := false
-		if !(s.Kind == "zrpc-client" && t <= 0) {
+		if !(s.isClient() && t <= 0) {
 			expDl, hasDl = vsched.Epoch.Add(t), true
 		}
 		switch s.Parent {
@@ -460,6 +482,9 @@ func callScenario(s callSpec) vx.Scenario {
 		}
 		if o.ran && s.Kind != "fx" {
 			if o.dlOK != hasDl || (hasDl && !o.dlSeen.Equal(expDl)) {
+				if s.Kind == "zrpc-chain" {
+					return vx.Verdict{Class: "wrong-deadline:client-chain", Msg: fmt.Sprintf("client chain (client-wide timeout %dms, per-call %dms (-1 = none), timeout middleware %s, incoming deadline %s): the invoker saw deadline %v (ok=%v), want %v (has=%v) = min(incoming, start + per-call or client-wide timeout)", s.DefT, s.CallT, s.Mw, s.Parent, o.dlSeen, o.dlOK, expDl, hasDl)}
+				}
 				return vx.Verdict{Class: "wrong-deadline", Msg: fmt.Sprintf("work saw deadline %v (ok=%v), want %v (has=%v)", o.dlSeen, o.dlOK, expDl, hasDl)}
 			}
 		}
@@ -499,7 +524,7 @@ func callScenario(s callSpec) vx.Scenario {
 			return vx.Verdict{Sig: "work-error"}
 		case s.Work == "panic":
 			return vx.Verdict{Class: "panic-swallowed", Msg: fmt.Sprintf("work panicked, wrapper returned (%v, %v)", o.resp, o.err)}
-		case s.Work == "stall" && s.Kind == "zrpc-client" && o.err == nil:
+		case s.Work == "stall" && s.isClient() && o.err == nil:
 			return vx.Verdict{Sig: "client-waited"}
 		default:
 			return vx.Verdict{Class: "mixture", Msg: fmt.Sprintf("work=%s but the caller observed (%v, %v)", s.Work, o.resp, o.err)}
@@ -718,6 +743,17 @@ func main() {
 			}
 		}
 	}
+	for _, mw := range []string{"on", "off"} {
+		for _, def := range []int{0, 1000} {
+			for _, call := range []int{-1, 0, 250, 4000} {
+				for _, p := range []string{"none", "earlier", "later"} {
+					for _, w := range []string{"ok", "err"} {
+						sc = append(sc, callScenario(callSpec{Kind: "zrpc-chain", Work: w, Parent: p, CallT: call, DefT: def, Mw: mw}))
+					}
+				}
+			}
+		}
+	}
 	for _, g := range []int{0, 300, 3000} {
 		for _, rt := range []int{0, 100, 5000} {
 			sc = append(sc, confScenario(g, rt))
@@ -736,5 +772,5 @@ func main() {
 		}
 	}
 	vx.Main(cfg, r, sc, vx.Bounds{P: 3, T: 1}, vx.Bounds{P: 4, T: 2},
-		"every interleaving (preemption bound / timer-deviation bound per scenario in the evidence) of a handler script with the expiry of the deadline on the virtual clock and client cancellation, for all scripts of <= 3 (4 thorough) header/status/body actions x 4 endings on the REST TimeoutHandler, all work behaviours x parent deadlines on the zRPC server interceptor and fx.DoWithTimeout, all default x per-call x incoming-deadline combinations of the zRPC client interceptor and all global x per-route REST timeout settings; Flush sub-family (client = recording ResponseWriter+Flusher whose every call is a scheduling point tagged wrapper/handler thread): all scripts of <= 3 (4) actions from {header, status, write, flush} containing a flush x 4 endings, all scripts of <= 2 (3) actions x {stall, wait-for-context} x late scripts {F, WF, HF, CF} (all late scripts of <= 3 actions ending in a flush), client cancel on 4 scripts, and two requests through ONE TimeoutHandler (first times out with a late flushing handler, second completes; served one after the other and by two server threads); deadline-order family (T=0, P<=2 (4)): stalled work x {fx, zRPC server, REST} x parent {none, later 2dt, later 10dt, earlier dt/2, cancel at dt/2} with a marker timer at min(parent,dt)+1ms that must fire after the wrapper returned; distinct/non-trivial by (scenario, what the caller observed: full result, timeout result, re-raised panic)")
+		"every interleaving (preemption bound / timer-deviation bound per scenario in the evidence) of a handler script with the expiry of the deadline on the virtual clock and client cancellation, for all scripts of <= 3 (4 thorough) header/status/body actions x 4 endings on the REST TimeoutHandler, all work behaviours x parent deadlines on the zRPC server interceptor and fx.DoWithTimeout, all default x per-call x incoming-deadline combinations of the zRPC client interceptor, alone and inside the unary interceptor chain as the real client assembles it (trace, duration, prometheus, breaker, timeout middleware on/off) and all global x per-route REST timeout settings; Flush sub-family (client = recording ResponseWriter+Flusher whose every call is a scheduling point tagged wrapper/handler thread): all scripts of <= 3 (4) actions from {header, status, write, flush} containing a flush x 4 endings, all scripts of <= 2 (3) actions x {stall, wait-for-context} x late scripts {F, WF, HF, CF} (all late scripts of <= 3 actions ending in a flush), client cancel on 4 scripts, and two requests through ONE TimeoutHandler (first times out with a late flushing handler, second completes; served one after the other and by two server threads); deadline-order family (T=0, P<=2 (4)): stalled work x {fx, zRPC server, REST} x parent {none, later 2dt, later 10dt, earlier dt/2, cancel at dt/2} with a marker timer at min(parent,dt)+1ms that must fire after the wrapper returned; distinct/non-trivial by (scenario, what the caller observed: full result, timeout result, re-raised panic)")
 }
